@@ -246,6 +246,97 @@ def run_oracle(ctx, I, s, e2e=True):
     return res
 
 
+def compare(ctx, name, pairs):
+    """lib.coq_compare; if the .vo files were being rebuilt under us (another check holds the build lock),
+    wait for the build and try once more"""
+    try:
+        return lib.coq_compare(ctx, name, IMPORTS, pairs)
+    except RuntimeError:
+        ok, log = ctx.build_ok, ctx.build_log
+        lib.build(ctx, ["Properties/C19.vo"])
+        rebuilt = ctx.build_ok
+        ctx.build_ok, ctx.build_log = ok, log
+        if not rebuilt:
+            raise
+        return lib.coq_compare(ctx, name + "r", IMPORTS, pairs)
+
+
+# ----------------------------------------------------------------------------------------------
+def plugin_stage(ctx, I, names, add):
+    """the names the real protoc plugin writes into a generated module (fields, classes, enum members)"""
+    import ast
+    from .. import plugin_util
+
+    def json_name(n):
+        out, up = [], False
+        for ch in n:
+            if ch == "_":
+                up = True
+            else:
+                out.append(ch.upper() if up else ch)
+                up = False
+        return "".join(out).lower()
+
+    fields, seen_json, seen_py = [], set(), set()
+    for s in names:
+        if not re.fullmatch(r"[A-Za-z_][A-Za-z0-9_]*", s):
+            continue
+        f = I.N.pythonize_field_name(s)
+        j = json_name(s)
+        if j in seen_json or f in seen_py or not j or f in I.reserved or f.startswith("__") or s.lower() in ("descriptor",):
+            continue
+        seen_json.add(j)
+        seen_py.add(f)
+        fields.append(s)
+    fields = fields[:160]
+    members = ["COLOR_UNSPECIFIED", "COLOR_RED", "COLOR_None", "COLOR_1", "COLOR_class", "GREEN", "MY_COLOR_BLUE", "COLOR___X__"]
+    classes = ["HTTPStatus", "address_line", "foo_bar", "a_b", "fooBAR", "X1y", "lowercase"]
+    proto = "syntax = \"proto3\";\npackage c19;\n"
+    proto += "enum Color {\n" + "".join(f"  {m} = {i};\n" for i, m in enumerate(members)) + "}\n"
+    proto += "message Holder {\n" + "".join(f"  int32 {s} = {i + 1};\n" for i, s in enumerate(fields)) + "}\n"
+    proto += "".join(f"message {c} {{ int32 v = 1; }}\n" for c in classes)
+    rc, out, out_dir = plugin_util.generate(ctx.work, {"c19.proto": proto}, f"c19gen{ctx.seed}")
+    if rc != 0:
+        ctx.fail("oracle", "the plugin rejected a schema of plain int32 fields: " + out[-600:], cls="raised", input=fields[:5])
+        return
+    src = open(os.path.join(out_dir, "c19", "__init__.py")).read()
+    try:
+        tree = ast.parse(src)
+    except SyntaxError as e:
+        ctx.fail("oracle", f"generated module is not valid Python: {e!r}", cls="name-not-identifier", input=fields[:5])
+        return
+    got = {}
+    for node in tree.body:
+        if isinstance(node, ast.ClassDef):
+            got[node.name] = [st.target.id if isinstance(st, ast.AnnAssign) else st.targets[0].id
+                              for st in node.body if isinstance(st, (ast.AnnAssign, ast.Assign))
+                              and isinstance(getattr(st, "target", None) or st.targets[0], ast.Name)]
+    order = [n.name for n in tree.body if isinstance(n, ast.ClassDef)]
+    holder = got.get("Holder", [])
+    if len(holder) != len(fields):
+        ctx.fail("oracle", f"generated Holder has {len(holder)} fields for {len(fields)} proto fields (a name was lost or merged)",
+                 cls="raised", input=fields[:5])
+    for s, g in zip(fields, holder):
+        add(f"CB (pythonize_field_name {qb(s)})", cs(g), ("plugin field name", s))
+        if not (g.isidentifier() and not keyword.iskeyword(g)):
+            ctx.fail("oracle", f"the plugin names proto field {s!r} {g!r}", cls="name-not-identifier", input=s)
+    for m, g in zip(members, got.get("Color", [])):
+        add(f"CB (pythonize_enum_member_name {qb(m)} {qb('Color')})", cs(g), ("plugin enum member name", m, "Color"))
+    for c in classes:
+        p = I.N.pythonize_class_name(c)
+        add(f"CB (pythonize_class_name {qb(c)})", cs(p if p in order else "<missing>"), ("plugin class name", c))
+    ctx.count("plugin_generated_names", len(holder) + len(members) + len(classes))
+    # K11 through the plugin: a message called `none` becomes `class None(...)`
+    rc, out, out_dir = plugin_util.generate(ctx.work, {"k11.proto": "syntax = \"proto3\";\npackage k11;\nmessage none { int32 v = 1; }\n"},
+                                            f"c19k11{ctx.seed}")
+    if rc == 0:
+        try:
+            compile(open(os.path.join(out_dir, "k11", "__init__.py")).read(), "k11", "exec")
+        except SyntaxError as e:
+            ctx.fail("oracle", f"message `none`: the generated module does not compile ({e.msg}): class name {I.N.pythonize_class_name('none')!r}",
+                     cls=CLS_CLASS, input="none")
+
+
 # ----------------------------------------------------------------------------------------------
 def run(ctx):
     rng = ctx.rng
@@ -392,13 +483,17 @@ def run(ctx):
         if s.isascii() and s and not s.isidentifier() and re.fullmatch(r"[A-Za-z0-9_.]+", s) and not s[0].isdigit():
             run_oracle(ctx, I, s, e2e=False)
 
+    try:
+        plugin_stage(ctx, I, WITNESSES + list(keyword.kwlist) + [s for s in corpus if s.isascii()], add)
+    except Exception as e:  # noqa
+        ctx.fail("oracle", f"running the real plugin raised {e!r}", cls="raised", input="plugin")
     ctx.cov["evaluations"] += len(pairs) + ne2e * 8
     if ctx.build_ok is False:
         # gen/C19Tables.v or the proofs no longer build against this tree: the model cannot be evaluated; the oracle
         # above has already looked for a failing input, lib.finish reports the proof break
         ctx.notes.append("Coq build failed: correspondence and sweeps skipped, oracle results only")
         return
-    bad = lib.coq_compare(ctx, "c19", IMPORTS, pairs)
+    bad = compare(ctx, "c19", pairs)
     ctx.cov["disagreements_checked"] += len(pairs)
     for i in bad[:20]:
         model_val = lib.coq_eval(ctx, IMPORTS, pairs[i][0])
@@ -506,9 +601,28 @@ def replay(ctx, obj):
     if isinstance(inp, str):
         res = run_oracle(ctx, I, inp)
     elif isinstance(inp, list) and len(inp) == 3 and inp[0] == "field_for_key":
-        res = [("field_for_key", f"from_dict gives key {inp[2]!r} to field {I.field_for_key(inp[1], inp[2])!r}; model said {obj.get('expected_model')}")]
-        print(res[0][1])
-        return 1
+        got = I.field_for_key(inp[1], inp[2])
+        fl = "[" + "; ".join(qb(f) for f in inp[1]) + "]"
+        bad = lib.coq_compare(ctx, "c19replay", IMPORTS,
+                              [(f"copt CB (field_for_key {fl} {qb(inp[2])})", CN if got is None else cs(got))])
+        print(f"from_dict gives key {inp[2]!r} of a class with fields {inp[1]} to field {got!r}; "
+              + ("the model disagrees" if bad else "the model agrees"))
+        return 1 if bad else 0
+    elif isinstance(inp, list) and len(inp) == 2 and inp[0] in ("case_name", "casing(non-ascii)"):
+        s = inp[1]
+        if inp[0] == "case_name":
+            pair = (f"case_name {qb(s)}", I.case(s))
+        else:
+            C = I.C
+            pair = (f"CL [CB (snake_case {qb(s)}); CB (safe_snake_case {qb(s)}); CB (pascal_case {qb(s)}); CB (camel_case {qb(s)})]",
+                    cl([cs(C.snake_case(s)), cs(C.safe_snake_case(s)), cs(C.pascal_case(s)), cs(C.camel_case(s))]))
+        bad = lib.coq_compare(ctx, "c19replay", IMPORTS, [pair])
+        print(f"casing functions on {s!r}: implementation gives {pair[1]}; " + ("the model disagrees" if bad else "the model agrees"))
+        res = run_oracle(ctx, I, s) if s.isascii() and s.isidentifier() else []
+        known = {k["cls"] for k in lib.load_known(ctx.pid) if k["status"] == "open"}
+        for cls_, what in res:
+            print(("KNOWN-FINDING " if cls_ in known else "FAILS ") + f"[{cls_}] {what}")
+        return 1 if bad or [c for c, _ in res if c not in known] else 0
     elif isinstance(inp, list) and inp and isinstance(inp[-1], str):
         res = run_oracle(ctx, I, inp[-1])
     else:
